@@ -409,6 +409,48 @@ def io_part(ctx):
                                        "serial_lengths (ra.load)": [len(r[::stride]) for r in rows],
                                        "got_first_values": loc[:, 0].tolist()[:12], "expected_first_values": exp[:, 0].tolist()[:12]},
                                       key="mpi.io/load_h5_as_striped/foreign-names/row-order")
+        # trajectory files with per-file load arguments (args=[{...}, ...]): file i is md.load(filenames[i], **args[i]),
+        # also when the same file is listed twice with different arguments (two strides, two atom selections)
+        import mdtraj as md
+        from harness.purity_routines import _mdtraj
+        rs = np.random.RandomState(5)
+        tfiles = []
+        for i, nf in enumerate((12, 5, 7)):
+            f = os.path.join(d, "t%d.h5" % i)
+            _mdtraj(rs, n_frames=nf, n_atoms=4).save(f)
+            tfiles.append(f)
+        for label, names, targs in (
+                ("distinct files", [tfiles[0], tfiles[1], tfiles[2]], [dict(stride=2), dict(stride=1), dict(stride=3)]),
+                ("one file twice, two strides", [tfiles[0], tfiles[1], tfiles[0], tfiles[2]],
+                 [dict(stride=1), dict(stride=1), dict(stride=3), dict(stride=2)]),
+                ("one file twice, two atom selections", [tfiles[0], tfiles[0], tfiles[1]],
+                 [dict(atom_indices=np.array([0, 1])), dict(atom_indices=np.array([2, 3])), dict(atom_indices=np.array([1, 2]))])):
+            serial = [md.load(f_, **a_).xyz for f_, a_ in zip(names, targs)]
+            for R in (1, 2, 3):
+                if R > len(names):
+                    continue
+
+                def body(rank):
+                    gl, xyz = mio.load_trajectory_as_striped(list(names), args=[dict(a_) for a_ in targs], processes=1)
+                    return [int(x) for x in gl], np.asarray(xyz)
+                n += 1
+                ctx.case(("io", "trajectory", label, R))
+                try:
+                    results, world = MPI.run_world(body, R)
+                except Exception as ex:
+                    ctx.violation({"kind": "replay", "loader": "load_trajectory_as_striped", "files": label, "R": R,
+                                   "error": "%s: %s" % (type(ex).__name__, str(ex)[:200])},
+                                  key="mpi.io/load_trajectory_as_striped/raises-%s" % type(ex).__name__)
+                    continue
+                for rank, (gl, xyz) in enumerate(results):
+                    exp = np.concatenate(serial[rank::R])
+                    if gl != [len(x) for x in serial] or xyz.shape != exp.shape or not np.array_equal(xyz, exp):
+                        ctx.violation({"kind": "replay", "loader": "load_trajectory_as_striped", "files": label, "R": R, "rank": rank,
+                                       "file_names": [os.path.basename(f_) for f_ in names],
+                                       "args": [{k: np.asarray(v).tolist() for k, v in a_.items()} for a_ in targs],
+                                       "global_lengths": gl, "serial_lengths (md.load per file)": [len(x) for x in serial],
+                                       "local_shape": list(xyz.shape), "expected_local_shape": list(exp.shape)},
+                                      key="mpi.io/load_trajectory_as_striped/differs-from-md.load-per-file")
     finally:
         shutil.rmtree(d, ignore_errors=True)
     ctx.notes["io_cases"] = n
